@@ -945,6 +945,78 @@ def run_failed_construction(w) -> None:
             loaded.unload()
 
 
+SHARED_DECORATOR_SOURCE = '''
+import icontract
+
+
+def positive(self):
+    return HUB.inv("positive:" + type(self).__name__, self) and self.x > 0
+
+
+checked = icontract.invariant(positive)
+
+
+@checked
+class Base{base}:
+    def __init__(self, x=1):
+        self.x = x
+
+    def get(self):
+        return self.x
+
+
+@checked
+class Derived(Base):
+    """Decorated with the very same decorator object as its base; defines a constructor and members of its own."""
+
+    def __init__(self, x=1, shift=0):
+        super().__init__(1)
+        self.x = x + shift
+
+    def spoil(self):
+        self.x = -1
+
+    @property
+    def doubled(self):
+        return self.x * 2
+'''
+
+
+def run_shared_decorator(w) -> None:
+    """One invariant decorator object applied to a class and again to its sub-class: the sub-class's own constructor and members are
+    wrapped like those of any decorated class (the invariant itself is listed once)."""
+    import icontract  # pylint: disable=import-outside-toplevel
+
+    for base in ("", "(icontract.DBC)"):
+        loaded = prog.load_source(SHARED_DECORATOR_SOURCE.format(base=base), w.scratch())
+        mod, hub = loaded.module, loaded.hub
+        try:
+            for tag, op, want in (
+                    ("derived-constructor-breaks-it-after-super", lambda: mod.Derived(1, shift=-5), "violation"),
+                    ("derived-constructor-fine", lambda: mod.Derived(2, shift=1), "returned"),
+                    ("own-method-breaks-it", lambda: mod.Derived(2).spoil(), "violation"),
+                    ("own-property-on-broken-object", lambda: (lambda d: (d.__dict__.__setitem__("x", -3), d.doubled))(mod.Derived(2)), "violation"),
+                    ("inherited-method-on-broken-object", lambda: (lambda d: (d.__dict__.__setitem__("x", -3), d.get()))(mod.Derived(2)), "violation"),
+                    ("base-unaffected", lambda: mod.Base(3).get(), "returned")):
+                hub.reset()
+                try:
+                    op()
+                    outcome = "returned"
+                except icontract.ViolationError:
+                    outcome = "violation"
+                except BaseException as err:  # pylint: disable=broad-except
+                    outcome = "raise {}: {}".format(type(err).__name__, str(err)[:120])
+                invs = [e.id for e in hub.events if e.kind == "inv"]
+                w.count("operations")
+                w.count("shared_decorator_operations")
+                w.case(("shared-decorator", tag, base))
+                if outcome != want:
+                    w.violation("C03/members-of-a-class-decorated-with-a-shared-decorator-object-unchecked", "{} ({}): {} (expected {}); invariant "
+                                "evaluations {}".format(tag, base or "plain classes", outcome, want, invs), {"shared_decorator": tag, "base": base})
+        finally:
+            loaded.unload()
+
+
 def run_factory_new(w) -> None:
     """__new__ of a class without __init__ acting as a factory for its subclasses (which may have constructors)."""
     # (only on the contract-inheriting base: invariants on plain subclasses of invariant-carrying classes are a silent zone)
@@ -996,6 +1068,7 @@ def run(w) -> None:
         run_aliased_members(w)
         run_setstate(w)
         run_failed_construction(w)
+        run_shared_decorator(w)
     n = 12000 if w.tier == "thorough" else 1200
     flavours = ["plain", "plain", "plain", "slots", "dataclass", "frozen", "own-new", "namedtuple"]
     for i in range(n):
@@ -1035,6 +1108,9 @@ def replay(case, w) -> None:
         return
     if "failed_construction" in case:
         run_failed_construction(w)
+        return
+    if "shared_decorator" in case:
+        run_shared_decorator(w)
         return
     plans = plans_from_json(case["plans"])
     oracle = Oracle(plans)
